@@ -3,22 +3,23 @@ import copy
 import os
 
 import numpy as np
+from hypothesis import strategies as st
 
-from .. import build, sim
+from .. import build, gen, sim
 from ..engine import Result
 from .c05 import BASE_DEVICE
 
 PID = "C19"
 TITLE = "Ill-posed problems are rejected before anything is written"
 LEVEL = "exploration"
-TECHNIQUE = "negative testing over an enumerated list of defect classes, each injected into valid problems at several magnitudes (gross .. 1e-6); oracle: the call raises and the directory listings (cwd, output directory, TMPDIR) are unchanged"
+TECHNIQUE = "negative testing: an enumerated list of defect classes injected into fixed valid problems at several magnitudes (gross .. 1e-6), and into Hypothesis-generated valid problems at generated magnitudes; oracle: the call raises and the directory listings (cwd, output directory, TMPDIR) are unchanged"
 RULE = (
     "enumerated: defect class (unbalanced dict / callable currents (always, after t0, on a window >= 25 % of the run), unknown terminal, epsilon > 1 "
     "(constant, callable), dt_init > dt_max, |terminal_psi| > 1, multiplier / drag / step / tolerance out of range, unknown solver, gpu without cupy, "
     "terminal touching no boundary, seed solution from a device differing in layer / film / terminals / mesh, vector potential of wrong shape, "
     "self-intersecting / multiply-connected polygons, unnamed film, duplicate names, probe point outside the film or in a hole) x magnitude "
     "{1, 1e-3, 1e-6} x 3 devices x output {None, file, file in a new sub-directory}; non-trivial = magnitude <= 1e-3 or a time-dependent defect; "
-    "all classes appear in every run (histogram in the evidence)"
+    "all classes appear in every run (histogram in the evidence); in addition generated problems: a generated device (box/ellipse, 2..3 terminals, 0..1 holes, any units), options (adaptive, screening, save interval), output mode and a defect class at a magnitude drawn log-uniformly from 1e-6..1, kept only if the same problem without the defect is accepted"
 )
 ASSUMPTIONS = [
     "rejection = any exception raised by the constructor / tdgl.solve call; acceptance = the call returns",
@@ -26,7 +27,7 @@ ASSUMPTIONS = [
     "each case runs in a private working directory and TMPDIR",
 ]
 LEVEL_TEXT = "Every member of the enumerated class list is instantiated on several devices, magnitudes and output modes; both the rejection and the absence of any file-system effect are asserted."
-LEVEL_NOTE = "Trusted: os.walk listings of private directories.  The class list is the property's; it is enumerated, not sampled."
+LEVEL_NOTE = "Trusted: os.walk listings of private directories.  The class list is the property's; it is enumerated, not sampled; the problems the defects are injected into are both fixed and generated."
 
 MAGS = [1.0, 1e-3, 1e-6]
 
@@ -67,8 +68,32 @@ VARIANT_CLASSES = {"terminal_psi_gt_1", "multiplier_out_of_range", "drag_out_of_
                    "currents_callable_window"}
 
 
+# classes that can be injected into any generated device (the others need a particular geometry and stay with the enumerated devices)
+GEN_CLASSES = [c for c in CLASSES if c not in ("terminal_off_boundary", "currents_callable_narrow_window", "polygon_self_intersecting",
+                                               "polygon_multiply_connected")]
+
+
 def budget(tier):
-    return dict(max_examples=0, workers=8 if tier == "quick" else 16, time_s=170 if tier == "quick" else 1200, min_cases=100)
+    if tier == "quick":
+        return dict(max_examples=240, workers=8, time_s=170, min_cases=300)
+    return dict(max_examples=6000, workers=16, time_s=1200, min_cases=600)
+
+
+@st.composite
+def _generated(draw, tier):
+    """A generated valid problem (device, options, output mode) with one defect class injected at a generated magnitude."""
+    d = draw(gen.device(terminals=(2, 3), holes=(0, 1), probes=(0, 2), film_kinds=("box", "ellipse"), size=(3.5, 5.5),
+                        lshape=False).filter(gen.valid_device))
+    cls = draw(st.sampled_from(GEN_CLASSES))
+    if cls in ("probe_in_hole", "duplicate_hole_names") and not d["holes"]:
+        cls = draw(st.sampled_from(["duplicate_terminal_names", "currents_dict_unbalanced", "epsilon_constant"]))
+    mag = 1.0 if cls in NO_MAG else draw(gen.logu(-6, 0))
+    return dict(cls=cls, mag=mag, device=d, variant=draw(st.integers(0, 5)), output=draw(st.sampled_from(["none", "file", "subdir"])),
+                adaptive=draw(st.booleans()), screening=draw(st.integers(0, 3)) == 0, save_every=draw(st.integers(1, 3)))
+
+
+def strategy(tier):
+    return _generated(tier)
 
 
 def grid(tier):
@@ -88,6 +113,10 @@ def grid(tier):
     return cases
 
 
+class _CannotInject(Exception):
+    pass
+
+
 def _listing(*roots):
     out = []
     for r in roots:
@@ -102,18 +131,58 @@ def check_case(spec):
 
     res = Result()
     cls, mag, v = spec["cls"], spec["mag"], spec["variant"]
-    dspec = copy.deepcopy(DEVICES[spec["device"]])
+    generated = not isinstance(spec["device"], str)
+    dspec = copy.deepcopy(spec["device"] if generated else DEVICES[spec["device"]])
     names = [t["name"] for t in dspec["terminals"]]
-    res.label(cls, f"mag={mag:g}", f"output={spec['output']}", spec["device"])
+    if generated:
+        res.label(cls, f"mag~1e{int(np.floor(np.log10(mag)))}", f"output={spec['output']}", "generated device")
+    else:
+        res.label(cls, f"mag={mag:g}", f"output={spec['output']}", spec["device"])
     res.nontrivial = mag <= 1e-3 or cls.startswith("currents_callable")
+    fc = build.make_polygon(dspec["film"], "film").points[:-1].mean(axis=0) if generated else np.array([0.3, 0.2])
+
+    def base_options(out):
+        o = dict(solve_time=0.05, dt_init=0.01, dt_max=0.02, adaptive=bool(v % 2), save_every=1, output_file=out, field_units="mT", current_units="uA",
+                 pause_on_interrupt=False)
+        if generated:
+            o.update(adaptive=bool(spec["adaptive"]), save_every=int(spec["save_every"]), include_screening=bool(spec["screening"]))
+        return o
+
+    # drive of the valid problem: fixed numbers for the enumerated devices; for generated devices a field of 0.1 Bc2 and currents
+    # of a few per cent of the depairing scale, in the units the options name
+    iu, B0 = 1.0, 0.3
+    if generated:
+        from .. import oracles as orc
+
+        L = dspec["layer"]
+        sc = orc.si_scales(L["xi"], L["lam"], L["d"], dspec["lu"])
+        wmin = min(t["width"] for t in dspec["terminals"]) * orc.LENGTH[dspec["lu"]]
+        iu = float(f"{0.01 * (sc['K0'] / 4.0) * wmin / orc.CURRENT['uA']:.2g}")
+        B0 = float(f"{0.1 * sc['Bc2'] / orc.FIELD['mT']:.3g}")
+
+    def base_currents():
+        return {names[0]: 5.0 * iu, names[1]: -5.0 * iu} if len(names) == 2 else {names[0]: 0.1 * iu, names[1]: 0.2 * iu, names[2]: -0.3 * iu}
+
+    if generated:
+        # the problem without the defect must be accepted, otherwise a rejection would prove nothing
+        with sim.workdir():
+            try:
+                d0 = build.make_device_or_refuse(dspec)
+                tdgl.solve(d0, tdgl.SolverOptions(**base_options(None)), applied_vector_potential=B0, terminal_currents=base_currents(),
+                           disorder_epsilon=1.0)
+            except build.LibraryRefused:
+                raise
+            except Exception as exc:  # noqa: BLE001
+                res.label(f"discarded: the problem without the defect is not accepted ({type(exc).__name__})")
+                res.nontrivial = False
+                return res
 
     with sim.workdir() as (cwd, tmp):
         out = {"none": None, "file": "out.h5", "subdir": os.path.join("results", "new", "out.h5")}[spec["output"]]
-        opt = dict(solve_time=0.05, dt_init=0.01, dt_max=0.02, adaptive=bool(v % 2), save_every=1, output_file=out, field_units="mT", current_units="uA",
-                   pause_on_interrupt=False)
-        cur = {names[0]: 5.0, names[1]: -5.0} if len(names) == 2 else {names[0]: 0.1, names[1]: 0.2, names[2]: -0.3}
+        opt = base_options(out)
+        cur = base_currents()
         big = max(abs(x) for x in cur.values())
-        kw = dict(applied_vector_potential=0.3, terminal_currents=dict(cur), disorder_epsilon=1.0, seed_solution=None)
+        kw = dict(applied_vector_potential=B0, terminal_currents=dict(cur), disorder_epsilon=1.0, seed_solution=None)
         dev = None
         seed_files = []
 
@@ -124,10 +193,11 @@ def check_case(spec):
         def make_seed(ds):
             d0 = build.make_device(ds, cache=False)
             o0 = tdgl.SolverOptions(solve_time=0.03, dt_init=0.01, adaptive=False, save_every=1, output_file=None)
-            return tdgl.solve(d0, o0, applied_vector_potential=0.3)
+            return tdgl.solve(d0, o0, applied_vector_potential=B0)
 
         accepted = None
         stage = "solve"
+        before = _listing(cwd, tmp)
         try:
             if cls == "currents_dict_unbalanced":
                 kw["terminal_currents"][names[-1]] += mag * big
@@ -150,15 +220,15 @@ def check_case(spec):
 
                 kw["terminal_currents"] = currents
             elif cls == "unknown_terminal":
-                kw["terminal_currents"] = {names[0]: 1.0, "no_such_terminal": -1.0}
+                kw["terminal_currents"] = {names[0]: 1.0 * iu, "no_such_terminal": -1.0 * iu}
             elif cls == "unknown_terminal_callable":
-                kw["terminal_currents"] = lambda t: {names[0]: 1.0, "nope": -1.0}
+                kw["terminal_currents"] = lambda t: {names[0]: 1.0 * iu, "nope": -1.0 * iu}
             elif cls == "epsilon_constant":
                 kw["disorder_epsilon"] = 1.0 + mag
             elif cls == "epsilon_callable_somewhere":
-                def eps(r, _m=mag):
+                def eps(r, _m=mag, _c=fc):
                     x, y = r
-                    return 1.0 + _m if (x > 0.3 and y > 0.2) else 0.9
+                    return 1.0 + _m if (x > _c[0] and y > _c[1]) else 0.9
 
                 kw["disorder_epsilon"] = eps
             elif cls == "dt_init_gt_dt_max":
@@ -200,6 +270,22 @@ def check_case(spec):
                     for k in ("w", "h", "a", "b"):
                         if k in ds["film"]:
                             ds["film"][k] *= 1 + mag * 0.05
+                elif cls == "seed_other_terminals" and v % 3 == 2:
+                    # the two devices share one Mesh object (Device.copy() keeps it) and differ only in a terminal's name or in
+                    # the probe points: still a different device
+                    dseed = build.make_device(dspec, cache=False)
+                    try:
+                        kw["seed_solution"] = tdgl.solve(dseed, tdgl.SolverOptions(solve_time=0.03, dt_init=0.01, adaptive=False, save_every=1, output_file=None),
+                                                         applied_vector_potential=B0)
+                    except Exception as exc:  # noqa: BLE001
+                        raise _CannotInject(f"{type(exc).__name__}: {exc}") from exc
+                    dev = dseed.copy()
+                    if v == 2 or dev.probe_points is None:
+                        dev.terminals[0].name = "renamed"
+                    else:
+                        dev.probe_points = np.array(dev.probe_points)[::-1] * np.array([[1.0, 1.0]]) + 1e-3 * float(np.ptp(dseed.film.points[:, 0]))
+                    assert dev.mesh is dseed.mesh and dev != dseed
+                    ds = None
                 elif cls == "seed_other_terminals":
                     if v % 2:
                         ds["terminals"] = ds["terminals"][:-1] if len(ds["terminals"]) > 2 else []
@@ -207,7 +293,15 @@ def check_case(spec):
                         ds["terminals"][0]["name"] = "renamed"
                 else:
                     ds["mesh"]["max_edge_length"] *= 0.8
-                kw["seed_solution"] = make_seed(ds)
+                try:
+                    if ds is not None:
+                        kw["seed_solution"] = make_seed(ds)
+                except Exception as exc:  # noqa: BLE001  (the other device could not be simulated: nothing to inject)
+                    raise _CannotInject(f"{type(exc).__name__}: {exc}") from exc
+                if cls == "seed_other_mesh":
+                    m0, m1 = build.make_device(dspec, cache=False).mesh, kw["seed_solution"].device.mesh
+                    if m0.sites.shape == m1.sites.shape and np.array_equal(m0.sites, m1.sites) and np.array_equal(m0.elements, m1.elements):
+                        raise _CannotInject("a smaller max_edge_length gave the identical mesh")
                 kw["terminal_currents"] = None
             elif cls == "vector_potential_shape":
                 def bad_A(x, y, z, _v=v):
@@ -233,7 +327,8 @@ def check_case(spec):
                     a.union(b)
                     accepted = "union of disjoint boxes"
             elif cls in ("film_unnamed", "duplicate_terminal_names", "duplicate_hole_names", "probe_outside_film", "probe_in_hole"):
-                lay = tdgl.Layer(london_lambda=2, coherence_length=0.5, thickness=0.05)
+                L = dspec["layer"]
+                lay = tdgl.Layer(london_lambda=L["lam"], coherence_length=L["xi"], thickness=L["d"])
                 film = build.make_polygon(dspec["film"], name=None if cls == "film_unnamed" else "film")
                 holes = [build.make_polygon(h, name=f"hole{i}") for i, h in enumerate(dspec["holes"])]
                 terms = [build.make_polygon(t["shape"], name=t["name"]) for t in dspec["terminals"]]
@@ -243,15 +338,17 @@ def check_case(spec):
                 if cls == "duplicate_hole_names":
                     holes = holes + [build.make_polygon(dict(kind="circle", r=0.2, points=12, center=[-1.0, 0.8]), name=holes[0].name)]
                 if cls == "probe_outside_film":
-                    xmax = film.points[:, 0].max()
+                    xmax, xmin = film.points[:, 0].max(), film.points[:, 0].min()
                     ymid = 0.5 * (film.points[:, 1].max() + film.points[:, 1].min())
-                    probes = [[0.0, 0.0], [xmax * (1 + mag) + 1e-12, ymid]]
+                    inside = list(dspec["probes"][0]) if dspec.get("probes") else list(film.points[:-1].mean(axis=0))
+                    probes = [inside, [xmax + mag * (xmax - xmin) * 0.5 + 1e-9 * (xmax - xmin), ymid]]
                 if cls == "probe_in_hole":
-                    probes = [[-1.0, 0.5], list(np.mean(holes[0].points[:-1], axis=0))]
-                tdgl.Device("dev", layer=lay, film=film, holes=holes, terminals=terms, probe_points=probes, length_units="um")
+                    inside = list(dspec["probes"][0]) if dspec.get("probes") else [-1.0, 0.5]
+                    probes = [inside, list(np.mean(holes[0].points[:-1], axis=0))]
+                tdgl.Device("dev", layer=lay, film=film, holes=holes, terminals=terms, probe_points=probes, length_units=dspec.get("lu", "um"))
                 accepted = f"Device({cls})"
             else:
-                dev = device()
+                dev = dev if dev is not None else device()
                 stage = "solve"
                 before = _listing(cwd, tmp)
                 options = tdgl.SolverOptions(**opt)
@@ -259,6 +356,10 @@ def check_case(spec):
                 accepted = "tdgl.solve returned " + type(sol).__name__
         except KeyboardInterrupt:
             raise
+        except _CannotInject as exc:
+            res.label("discarded: the defect could not be constructed")
+            res.nontrivial = False
+            return res
         except BaseException as exc:  # noqa: BLE001
             rejected_with = exc
         else:
